@@ -55,9 +55,12 @@ func bytesOf(k []int) []byte {
 
 func b64(b []byte) string { return base64.StdEncoding.EncodeToString(b) }
 
+// maxID is the highest deployed-contract id the storage dump looks at (a world that deploys more fails loudly).
+const maxID = 96
+
 var ids = func() []int32 {
 	var r []int32
-	for id := int32(-15); id <= chainkit.MaxContractID; id++ {
+	for id := int32(-15); id <= maxID; id++ {
 		if id != 0 {
 			r = append(r, id)
 		}
